@@ -221,9 +221,15 @@ def segments(chk, repo):
         tg = [s for s in ast.walk(lp.stmt) if isinstance(s, ast.AugAssign)
               and unparse(s.target) == "toggle"]
         ok = len(tg) == 1 and isinstance(tg[0].op, ast.BitXor) and int_const(
-            tg[0].value) == 0x10 and tg[0] in lp.stmt.body
+            tg[0].value) == 0x10
+        if ok:
+            # every trip that comes back to the loop test has flipped it
+            def is_flip(n):
+                return n.stmt is tg[0]
+            ok = cfg.must_pass(Start, is_flip, targets=[lp]) or is_flip(
+                first[0])
         chk.ob("R16.2", sym, "the toggle bit flips once per iteration", ok,
-               lp.stmt, "toggle ^= 0x10 at the top level of the loop body")
+               lp.stmt, "one `toggle ^= 0x10` on every path round the loop")
         t0 = [s for s, v in assigned_values(f, "toggle")
               if isinstance(s, ast.Assign)]
         ok = len(t0) == 1 and int_const(t0[0].value) == 0
